@@ -28,6 +28,7 @@ type StoreCfg struct {
 	HideStreamer bool   `json:"hide_streamer,omitempty"` // force Replay onto the paged path
 	StreamBatch  int    `json:"stream_batch,omitempty"`  // sqlite.WithStreamBatchSize
 	ChunkSize    int    `json:"chunk,omitempty"`         // durable-streams server chunk size in bytes (0 = default)
+	InMemory     bool   `json:"in_memory,omitempty"`     // sqlite: the ":memory:" path instead of a file
 }
 
 func (c StoreCfg) String() string {
@@ -40,6 +41,9 @@ func (c StoreCfg) String() string {
 	}
 	if c.ChunkSize > 0 {
 		s += fmt.Sprintf("+chunk%d", c.ChunkSize)
+	}
+	if c.InMemory {
+		s += "+:memory:"
 	}
 	return s
 }
@@ -145,6 +149,9 @@ func (e *storeEnv) openStore(cfg StoreCfg, name string) (eventbus.EventStore, er
 		return &naiveStore{}, nil
 	case "sqlite":
 		path := filepath.Join(e.tempDir(), name+".db")
+		if cfg.InMemory {
+			path = ":memory:"
+		}
 		var opts []sqlite.Option
 		if cfg.StreamBatch > 0 {
 			opts = append(opts, sqlite.WithStreamBatchSize(cfg.StreamBatch))
